@@ -261,7 +261,9 @@ def r2_registry(ctx):
         ctx.violation("C17.R2", API, site, "tags", f"message tags must be single bytes: {tags}")
     else:
         ctx.ok("C17.R2", site, f"{len(tags)} distinct one-byte tags")
-    concrete = [ci for ci in _classes(repo) if ci.name != "EmptyCommand"]
+    # a class that only serves as base of registered message classes (EmptyCommand today) is not itself sent: it needs no tag
+    bases_of_registered = {b for q in regs if q in repo.classes for b in repo.class_mro(q)[1:]}
+    concrete = [ci for ci in _classes(repo) if ci.qual not in bases_of_registered or ci.qual in regs]
     for ci in concrete:
         if ci.qual not in regs:
             ctx.violation("C17.R2", API, site, f"registration of {ci.name}",
